@@ -378,10 +378,45 @@ from . import c01 as _c01, c08 as _c08, c19 as _c19  # noqa: E402
 from .shared import Renamed as _Renamed  # noqa: E402
 
 
+def rule_wrapper_identify(model, rep):
+    """the schemes of the ldap / roundup / django presets are PrefixWrapper objects and `ldap_plaintext`: what they claim is
+       prefix + (what the wrapped scheme claims)   and   every non-empty string that does not start with an RFC 2307 `{SCHEME}` tag"""
+    R = "C17.h-wrapper-identify"
+    UHm = "passlib.utils.handlers"
+    fn = model.func(UHm, "PrefixWrapper.identify")
+    # the only way to answer False without asking the wrapped scheme is a prefix mismatch
+    falses = []
+    for n in walk_no_nested(fn):
+        if isinstance(n, ast.If):
+            for b in n.body:
+                if isinstance(b, ast.Return) and isinstance(b.value, ast.Constant) and b.value.value is False:
+                    falses.append(ast.unparse(n.test))
+    for st in fn.body:
+        if isinstance(st, ast.Return) and isinstance(st.value, ast.Constant) and st.value.value is False:
+            falses.append("<unconditional>")
+    ok = bool(falses) and all("startswith(self.prefix)" in t for t in falses)
+    rep.check(ok, R, site(UHm, "PrefixWrapper.identify"), f"`return False` under: {falses}", "a wrapper refuses a string only for lacking its prefix; everything else is the wrapped scheme's decision",
+              witness="roundup_plaintext.identify('{plaintext}') (the hash of the empty password) is False: roundup_context cannot verify an account with an empty password")
+    rets = [ast.unparse(r.value) for r in walk_no_nested(fn) if isinstance(r, ast.Return) and not (isinstance(r.value, ast.Constant) and r.value.value is False)]
+    rep.check(rets == ["self.wrapped.identify(hash)"] or rets == ["self.wrapped.identify(self._unwrap_hash(hash))"], R, site(UHm, "PrefixWrapper.identify") + " delegate", "; ".join(rets),
+              "after unwrapping, the wrapped scheme's identify() decides")
+    LD = "passlib.handlers.ldap_digests"
+    fn = model.func(LD, "ldap_plaintext.identify")
+    pat = model.class_const((LD, "ldap_plaintext"), "_2307_pat")
+    node = model.lookup((LD, "ldap_plaintext"), "_2307_pat")[1]
+    src = model.fold(model.unit(LD), node.args[0]) if isinstance(node, ast.Call) and node.args else UNKNOWN
+    rep.check(src == "^\\{\\w+\\}.*$", R, site(LD, "ldap_plaintext._2307_pat"), repr(src), "the excluded strings are exactly those starting with an RFC 2307 scheme tag `{word-characters}`",
+              witness="ldap_plaintext.identify('{p@ss}w0rd') is False: ldap_context attributes the plaintext entry to no scheme and verify() raises")
+    rets = [ast.unparse(r.value) for r in walk_no_nested(fn) if isinstance(r, ast.Return)]
+    rep.check(rets == ["bool(hash) and cls._2307_pat.match(hash) is None"], R, site(LD, "ldap_plaintext.identify"), "; ".join(rets),
+              "ldap_plaintext claims every non-empty string the tag pattern does not match")
+
+
 def run(model, rep):
     rep.explanation = __doc__
     rep.assumptions = ["identify languages are modelled over a representative alphabet (printable ASCII, NL, TAB, NUL, one non-ASCII stand-in)",
                        "lookup_hash(x).name == x and digest sizes of md4/md5/sha1/sha256/sha512 are the standard ones (class factories)"]
+    rule_wrapper_identify(model, rep)      # first: the identify models below assume these shapes and stop the run when they are gone
     table = HandlerTable(model)
     rule_a(model, rep, table)
     rule_bc(model, rep, table)
